@@ -7,6 +7,7 @@ import (
 	"fmt"
 	gonet "net"
 	"sync"
+	"sync/atomic"
 	"testing"
 	"time"
 
@@ -436,6 +437,70 @@ func runC17Scenario(c c17ScenarioCase) *vh.Outcome {
 		}
 		time.Sleep(300 * time.Millisecond)
 		o.Fail = c17Healthy(w, "garbling", []int{0, 1, 2})
+	case "concurrent-first-senders":
+		// several goroutines whose FIRST send to a destination coincides, on a fresh sender object every round (the world's
+		// long-lived connections are warm: their first send happened long ago). Exactly once, unmodified, per-goroutine order.
+		rounds := 1200
+		if vh.Thorough() {
+			rounds = 6000 // every round leaves a connection open (the library cannot close one): stay below the descriptor limit
+		}
+		const senders, per = 4, 20
+		for r := 0; r < rounds; r++ {
+			dst := 1 + r%3
+			fresh := w.remoteFor(w.parties[0], w.parties[dst].srv.Addr, dst)
+			tag := fmt.Sprintf("cfs-%d-%d", time.Now().UnixNano(), r)
+			var ready, wg sync.WaitGroup
+			var start int32 // spin barrier: the goroutines leave it within nanoseconds of each other
+			for g := 0; g < senders; g++ {
+				g := g
+				ready.Add(1)
+				wg.Add(1)
+				go func() {
+					defer wg.Done()
+					ready.Done()
+					for atomic.LoadInt32(&start) == 0 {
+					}
+					for i := 0; i < per; i++ {
+						fresh.Send(2, netTopic(7), []byte(fmt.Sprintf("%s/%d/%03d", tag, g, i)), uint16(dst))
+					}
+				}()
+			}
+			ready.Wait()
+			atomic.StoreInt32(&start, 1)
+			wg.Wait()
+			srv := w.parties[dst].srv
+			mine := func(ms []tssnet.InMsg) []string {
+				var out []string
+				for _, m := range ms {
+					if len(m.Data) > len(tag) && string(m.Data[:len(tag)]) == tag {
+						out = append(out, string(m.Data))
+					}
+				}
+				return out
+			}
+			ok := srv.waitFor(func(ms []tssnet.InMsg) bool { return len(mine(ms)) >= senders*per }, 10*time.Second)
+			got := mine(srv.snapshot())
+			seen := map[string]int{}
+			last := map[string]string{}
+			for _, m := range got {
+				seen[m]++
+				var g, i int
+				if _, err := fmt.Sscanf(m[len(tag):], "/%d/%d", &g, &i); err != nil || g < 0 || g >= senders || i < 0 || i >= per {
+					o.Fail = vh.Failf("C17/concurrent-first-senders", "round %d: party %d received a message that was never sent (garbled): %q", r, dst, m)
+					return o
+				}
+				k := fmt.Sprint(g)
+				if m <= last[k] {
+					o.Fail = vh.Failf("C17/concurrent-first-senders", "round %d: messages of sender goroutine %d arrived out of order or twice at party %d (%q after %q)", r, g, dst, m, last[k])
+					return o
+				}
+				last[k] = m
+			}
+			if !ok || len(seen) != senders*per {
+				o.Fail = vh.Failf("C17/concurrent-first-senders", "round %d: %d goroutines made their first sends to party %d through a fresh sender at the same moment (%d messages each); %d distinct messages of %d arrived", r, senders, dst, per, len(seen), senders*per)
+				return o
+			}
+		}
 	case "late-peer":
 		// a destination that is not reachable yet when messages for it are accepted: everything that Send accepted must
 		// arrive, once and in order, when the peer comes up (several dial attempts fail in between)
@@ -634,7 +699,7 @@ func TestC17Scenarios(t *testing.T) {
 		}()
 	}
 	p.Enumerate(t, st, func(yield func(c17ScenarioCase) bool) {
-		for _, name := range []string{"types-and-limit", "garbling-peer", "silent-tcp-peer", "burst-order", "late-peer"} {
+		for _, name := range []string{"types-and-limit", "garbling-peer", "silent-tcp-peer", "burst-order", "late-peer", "concurrent-first-senders"} {
 			if !yield(c17ScenarioCase{Name: name}) {
 				return
 			}
